@@ -228,6 +228,23 @@ def entry_points(pa):
         lambda c, d: pa.Alignment(c.get_best_alignment(d).unitary_alignments[:-1] or [], continuum=c, check_validity=True),
         (Exception,)), True, False, False)
 
+    @reg("handbuilt_alignment_foreign_label")
+    def _(c, d):
+        from pyannote.core import Segment
+        anns = list(c.annotators)
+        uas = [pa.UnitaryAlignment([(a, (u if a == a0 else None)) for a in anns])
+               for a0 in anns for u in c.iter_annotator(a0)]
+        uas.append(pa.UnitaryAlignment([(a, (pa.Unit(Segment(400, 401), "never_seen") if i == 0 else None))
+                                        for i, a in enumerate(anns)]))
+        al = pa.Alignment(uas, continuum=c)
+        for call in (lambda: al.compute_disorder(d), lambda: al.categories, lambda: al.check(),
+                     lambda: al.gamma_k_disorder(d, None), lambda: uas[-1].compute_disorder(d)):
+            try:
+                call()
+            except Exception:  # noqa - refusing the foreign unit is fine, changing the continuum is not
+                pass
+        return []
+
     @reg("measure_best_window_size", window=True)
     def _(c, d):
         c.measure_best_window_size(d)
